@@ -6,7 +6,7 @@
 From Coq Require Import ZArith List Permutation Sorted.
 Import ListNotations.
 From Mds Require Import Heapq.HeapqModel Heapq.HeapqSpec Heapq.HeapqHist Heapq.HeapqOrder Heapq.HeapqRepaired
-  Heapq.HeapqTriggerSpec Heapq.HeapqTriggers Heapq.HeapqSkel Heapq.HeapqInst Heapq.HeapqInstProofs.
+  Heapq.HeapqTriggerSpec Heapq.HeapqTriggers Heapq.HeapqSkel Heapq.HeapqInst Heapq.HeapqInstProofs Heapq.HeapqInt.
 Local Open Scope Z_scope.
 
 (* Contents, for EVERY variant, every element type, every comparison function (no contract), every
@@ -183,3 +183,21 @@ Print Assumptions C05_skeleton.
 Theorem C05_harness_comparators_lawful : forall code : Z, total_preorder elt (ccmp code).
 Proof. exact ccmp_total_preorder. Qed.
 Print Assumptions C05_harness_comparators_lawful.
+
+(* Machine integers: the model computes on Z.  heapq.go does arithmetic on ints only to form slice
+   indexes (Gen: lchild, lchild_next, rchild, parent, pop_last, set_start, heapify_start_*, the loop
+   steps); no caller-supplied int is negated, added or multiplied (Peek/Remove only compare).  For
+   a queue of fewer than 2^62 elements every such value fits in int64, so Go computes what Z
+   computes; at 2^62+1 elements (zero-size element types only) 2*i+1 leaves the range
+   (HeapqInt.index_arithmetic_overflows_at_2_62; the real Set panics there, notes/C05-audit.md).
+   All theorems of C05/C06 are about queues of fewer than 2^62 elements. *)
+Theorem C05_index_arithmetic_in_range : forall len i : Z, 0 <= i < len -> len < 2 ^ 62 ->
+  0 <= Gen.HeapqIdx.lchild i <= int_max /\ 0 <= Gen.HeapqIdx.lchild_next i <= int_max /\
+  (forall lc, 0 <= lc < len -> 0 <= Gen.HeapqIdx.rchild lc <= int_max) /\
+  0 <= Gen.HeapqIdx.parent i <= int_max /\
+  -1 <= Gen.HeapqIdx.pop_last len <= int_max /\ -1 <= Gen.HeapqIdx.set_start len <= int_max /\
+  -1 <= Gen.HeapqIdx.set_next i <= int_max /\
+  0 <= Gen.HeapqIdx.heapify_start_new len <= int_max /\ 0 <= Gen.HeapqIdx.heapify_start_reorder len <= int_max /\
+  -1 <= Gen.HeapqIdx.heapify_next_new i <= int_max /\ -1 <= Gen.HeapqIdx.heapify_next_reorder i <= int_max.
+Proof. exact index_arithmetic_in_range. Qed.
+Print Assumptions C05_index_arithmetic_in_range.
